@@ -142,7 +142,7 @@ class _ReadSourceGenerator:
         def flush() -> Iterator[str]:
             if current_block:
                 if self.align and current_block[0].offset is None:
-                    yield f"stream.seek(-stream.tell() & ({current_block[0].alignment} - 1), {io.SEEK_CUR})"
+                    yield f"stream.seek(-(stream.tell() - o) & ({current_block[0].alignment} - 1), {io.SEEK_CUR})"
 
                 yield from self._generate_packed(current_block)
                 current_block[:] = []
@@ -156,7 +156,7 @@ class _ReadSourceGenerator:
                 current_offset = field.offset
 
             if self.align and field.offset is None:
-                yield f"stream.seek(-stream.tell() & ({field.alignment} - 1), {io.SEEK_CUR})"
+                yield f"stream.seek(-(stream.tell() - o) & ({field.alignment} - 1), {io.SEEK_CUR})"
 
         for field in self.fields:
             field_type = field.type
@@ -234,7 +234,7 @@ class _ReadSourceGenerator:
         yield from flush()
 
         if self.align:
-            yield f"stream.seek(-stream.tell() & (cls.alignment - 1), {io.SEEK_CUR})"
+            yield f"stream.seek(-(stream.tell() - o) & (cls.alignment - 1), {io.SEEK_CUR})"
 
     def _generate_structure(self, field: Field) -> Iterator[str]:
         template = f"""
